@@ -325,6 +325,69 @@ pub fn run(ctx: &mut Ctx, which: Which) {
         }
     });
     if which.c02 {
+        // input delivered exactly once also when the exchange is interrupted by time limits and resumed
+        let nr = ctx.n(200, 2000);
+        ctx.family("resumed-after-timeouts", nr, |ctx, rng, _i| {
+            let seed = rng.next() >> 1;
+            let cap = 65536u64;
+            let input = comm::input_for(seed, rng.range(cap * 2, cap * 6) as usize);
+            let n1 = rng.range(0, 150_000);
+            let mut chain = vec![];
+            for _ in 0..rng.range(1, 6) {
+                chain.push(comm::Limit { size: None, time: Some(std::time::Duration::from_millis(*rng.pick(&[1u64, 5, 10, 50]))) });
+            }
+            for _ in 0..5000 {
+                chain.push(comm::Limit { size: Some(1 << 22), time: Some(std::time::Duration::from_secs(3600)) });
+            }
+            let cfg = Xcfg {
+                seed,
+                script: format!("s{},r{},s{},R,w1:{}:4096,w2:{}:100,x0", rng.range(8, 25), rng.range(1, 70000), rng.range(0, 15), n1, rng.range(0, 3000)),
+                input: Some(input.clone()),
+                out_piped: true,
+                err_piped: true,
+                err_merge: false,
+                cap: cap as i64,
+                entry: if rng.chance(700) { Entry::Start } else { Entry::ExecCommunicate },
+                chain,
+                short_rw: if rng.chance(300) { 300 } else { 0 },
+                delay_us: 0,
+                vclock: Some((rng.range(2, 4) as i64, 0)),
+                max_polls_after_deadline: -1,
+                ops_budget: 0,
+                stop_when_done: true,
+                kill_after: false,
+            };
+            let x = comm::exchange(ctx, &cfg);
+            ctx.count("exchanges", 1);
+            ctx.distinct_h(crate::common::fnv(cfg.script.as_bytes()) ^ seed);
+            if x.cert.is_some() || x.panic.is_some() || x.hard_timeout {
+                return;
+            }
+            let timeouts = x.reads.iter().filter(|r| !r.ok && r.err_kind == Some(ErrorKind::TimedOut)).count();
+            ctx.count("resumed_exchanges", 1);
+            ctx.count("timeouts_before_resuming", timeouts as i64);
+            let w = J::obj().set("script", J::s(&cfg.script)).set("input_len", J::i(input.len() as i64)).set("timed_out_reads", J::i(timeouts as i64)).set("reads", J::i(x.reads.len() as i64)).set("child_report", J::arr_s(&x.report));
+            let done = x.reads.last().map(|r| r.ok).unwrap_or(false) && x.child_done();
+            if !done {
+                return;
+            }
+            match x.child_in() {
+                Some((len, h, eof)) => {
+                    ctx.count("input_bytes_verified", len as i64);
+                    if len != input.len() as u64 || h != comm::hash(&input) {
+                        ctx.violation("C02/input-bytes/resumed", &format!("after {} timed-out and resumed reads the child received {} bytes, the input has {} (not delivered exactly once)", timeouts, len, input.len()), w);
+                    } else if !eof {
+                        ctx.violation("C02/no-eof/resumed", "the child never saw end-of-file on its stdin", w);
+                    }
+                }
+                None => {}
+            }
+            let got = x.cat_out();
+            let exp = pat_vec(seed, 1, 0, x.child_wrote(1) as usize);
+            if got != exp {
+                ctx.violation("C02/stdout-bytes/resumed", &format!("stdout pieces of the resumed reads add up to {} bytes, the child wrote {}", got.len(), exp.len()), J::Null);
+            }
+        });
         // text variants and special byte strings (NUL, invalid UTF-8, sequences cut at chunk boundaries): cat-like child echoes the input
         let nt = ctx.n(400, 3000);
         ctx.family("text-and-special-bytes", nt, |ctx, rng, _i| {
